@@ -32,6 +32,10 @@ struct Frame {
     // assignment can be discarded without losing earlier accesses of the same ID.
     pending_accesses: HashMap<ConstantIndex, usize>,
     pending_assignments: HashSet<ConstantIndex>,
+    // IDs on the LHS of assignments that are having their RHS parsed.
+    // They become assigned once the RHS is complete, until then they aren't assigned yet for
+    // any expressions that get finalized while the RHS is being parsed.
+    assignments_in_progress: HashSet<ConstantIndex>,
 
     // If this is still `Some` after the expression is done parsing
     // then this error will be returned.
@@ -51,7 +55,9 @@ impl Frame {
     // creating the nested inner frame.
     fn add_nested_accessed_non_locals(&mut self, nested_frame: &Frame) {
         for non_local in nested_frame.accessed_non_locals.iter() {
-            if !self.pending_assignments.contains(non_local) {
+            if !self.pending_assignments.contains(non_local)
+                && !self.assignments_in_progress.contains(non_local)
+            {
                 self.add_id_access(*non_local);
             }
         }
@@ -87,6 +93,25 @@ impl Frame {
 
         self.ids_assigned_in_frame
             .extend(self.pending_assignments.drain());
+    }
+
+    // Called before parsing the RHS of an assignment
+    //
+    // Expression lists that are nested in the RHS (e.g. the branches of an inline if, or string
+    // interpolations) finalize their ID accesses before the assignment is complete,
+    // this prevents them from counting the LHS IDs as already assigned.
+    fn begin_assignment_rhs(&mut self) -> Vec<ConstantIndex> {
+        let in_progress: Vec<_> = self.pending_assignments.drain().collect();
+        self.assignments_in_progress.extend(in_progress.iter());
+        in_progress
+    }
+
+    // Called after parsing the RHS of an assignment, with the result of begin_assignment_rhs
+    fn end_assignment_rhs(&mut self, in_progress: Vec<ConstantIndex>) {
+        for id in in_progress {
+            self.assignments_in_progress.remove(&id);
+            self.ids_assigned_in_frame.insert(id);
+        }
     }
 
     // Register an error, that will be returned after the expression has been parsed.
@@ -841,7 +866,11 @@ impl<'source> Parser<'source> {
             TempResult::Yes
         };
 
-        if let Some(rhs) = self.parse_expressions(context, temp_result)? {
+        let in_progress = self.frame_mut()?.begin_assignment_rhs();
+        let rhs = self.parse_expressions(context, temp_result)?;
+        self.frame_mut()?.end_assignment_rhs(in_progress);
+
+        if let Some(rhs) = rhs {
             let start_span = self.node_span(*targets.first().unwrap());
             let node = if single_target {
                 Node::Assign {
